@@ -471,8 +471,14 @@ func c08PatchFor(in CorpusFile) c08Patch {
 	return c08Cache.patches[0]
 }
 
-func (c08) Eval(env *Env, c *Case) []Violation {
-	var vs []Violation
+func (c08) Eval(env *Env, c *Case) (vs []Violation) {
+	if c.Sub == "tree" {
+		// enumerating a tree of at most a few hundred nodes and patching its files
+		// needs well under 1e6 steps; a walk that never ends is caught early
+		b := DefaultBudget
+		DefaultBudget = 6_000_000
+		defer func() { DefaultBudget = b }()
+	}
 	what := c.Extra["what"]
 	add := func(oracle, sig, detail string) {
 		vs = append(vs, Violation{Oracle: oracle, Signature: "C08/" + oracle + "/" + sig, Detail: detail + " [" + c.Sub + ": " + what + "; args " + fmt.Sprint(c.Spec.Args) + "]"})
